@@ -185,7 +185,49 @@ def check_routines(src: str) -> dict:
         if kw.get("as_deepcopy") != "True":
             raise Unsupported(f"fit.{name}: as_deepcopy default {kw.get('as_deepcopy')}")
         out[name] = kw.get("loss_fn", "?")
+    out["sets_best"] = sets_best(tree)
     return out
+
+
+SET_BEST_BODY = ("p_names = model.get_parameter_names()\nv_names = model.get_variable_names()\n"
+                 "model.update_parameters({k: v for k, v in parameters.items() if k in p_names})\n"
+                 "model.update_variables({k: v for k, v in parameters.items() if k in v_names})")
+
+
+def sets_best(tree: ast.Module) -> bool:
+    """does the success branch of all three fit routines start with `_set_best(model, parameters)` (and is `_set_best`
+    the assignment of the reported values through the parameter / variable names)?  none of them: False (pinned tree);
+    some but not all, or another `_set_best`: refuse"""
+    found = []
+    for name in ("steady_state", "time_course", "protocol_time_course"):
+        fn = next(n for n in tree.body if isinstance(n, ast.FunctionDef) and n.name == name)
+        m = fn.body[-1]
+        if not (isinstance(m, ast.Match) and ast.unparse(m.subject) == "minimizer(fn, p0, {} if bounds is None else bounds).value"):
+            raise Unsupported(f"fit.{name}: does not end with `match minimizer(fn, p0, ...).value`")
+        case = m.cases[0]
+        if ast.unparse(case.pattern) != "OptimisationState(parameters, residual)":
+            raise Unsupported(f"fit.{name}: first case is {ast.unparse(case.pattern)}")
+        body = [ast.unparse(x) for x in case.body]
+        ret = "return Result(Fit(model=model, best_pars=parameters, loss=residual))"
+        if body == [ret]:
+            found.append(False)
+        elif body == ["_set_best(model, parameters)", ret]:
+            found.append(True)
+        else:
+            raise Unsupported(f"fit.{name}: success branch is\n" + "\n".join(body))
+        if ast.unparse(m.cases[1].pattern) != "_ as e" or [ast.unparse(x) for x in m.cases[1].body] != ["return Result(e)"]:
+            raise Unsupported(f"fit.{name}: failure branch changed")
+    if not any(found):
+        return False
+    if not all(found):
+        raise Unsupported("_set_best is called by some fit routines only")
+    fn = next((n for n in tree.body if isinstance(n, ast.FunctionDef) and n.name == "_set_best"), None)
+    if fn is None or [a.arg for a in fn.args.args] != ["model", "parameters"]:
+        raise Unsupported("_set_best not found / signature")
+    body = [s for s in fn.body if not (isinstance(s, ast.Expr) and isinstance(s.value, ast.Constant))]
+    if "\n".join(ast.unparse(x) for x in body) != SET_BEST_BODY:
+        raise Unsupported("_set_best changed:\n" + "\n".join(ast.unparse(x) for x in body))
+    return True
 
 
 def default_box(src: str):
@@ -247,6 +289,8 @@ def render(repo: Path) -> str:
         "def fitCopiesByDefault : Bool := true\n"
         f"/-- default `loss_fn` of steady_state / time_course / protocol_time_course -/\n"
         f"def defaultLoss : List String := [{', '.join(chr(34) + defaults[k] + chr(34) for k in ('steady_state', 'time_course', 'protocol_time_course'))}]\n\n"
+        "/-- the success branch of the three fit routines assigns the reported values to the returned model -/\n"
+        f"def fitSetsBest : Bool := {'true' if defaults['sets_best'] else 'false'}\n\n"
         "/-- the box `LocalScipyMinimizer` applies to a parameter without explicit bounds -/\n"
         f"def defaultBox : Rat × Rat := (({lo.numerator} : Rat) / {lo.denominator}, ({hi.numerator} : Rat) / {hi.denominator})\n\n"
         "/-- the losses that need no sqrt/log, evaluated at Rat by the driver -/\n"
@@ -275,6 +319,7 @@ def generate(repo: Path, outdir: Path) -> None:
                               "def shipped : List String := []\n"
                               "def defaultBox : Rat × Rat := (0, 0)\n"
                               "def scaleGuard : Bool := false\n"
+                              "def fitSetsBest : Bool := false\n"
                               "def settingsLoss {α : Type} [Sub α] [Div α] [LT α] [DecidableLT α] [NatCast α]\n"
                               "    (lossFn : List α → List α → α) (standardScale : Bool) (mean scale : α) (data prediction : List α) : α :=\n"
                               "  scaledLoss false lossFn standardScale mean scale data prediction\n"
